@@ -308,6 +308,23 @@ CLASSES = [
 EXPECT = ["return:param", "return:param", "return:False", "return:False", "return:True", "return:True", "raise:ValueError", "raise:ValueError"]
 
 
+_CONST_TABLES: dict = {}  # name -> (elements / keys, {key: value} or None): module-level constant containers of the parser's module
+
+
+def _load_const_tables(mod):
+    _CONST_TABLES.clear()
+    for name, vals in mod.assigns.items():
+        if len(vals) != 1 or vals[0] is None:
+            continue
+        v = vals[0]
+        if isinstance(v, ast.Call) and norm(v.func) in ("frozenset", "set", "tuple", "dict") and len(v.args) == 1:
+            v = v.args[0]
+        if isinstance(v, (ast.Tuple, ast.List, ast.Set)) and v.elts and all(isinstance(x, ast.Constant) for x in v.elts):
+            _CONST_TABLES[name] = ([x.value for x in v.elts], None)
+        elif isinstance(v, ast.Dict) and v.keys and all(isinstance(k, ast.Constant) for k in v.keys) and all(isinstance(x, ast.Constant) for x in v.values):
+            _CONST_TABLES[name] = ([k.value for k in v.keys], {k.value: x.value for k, x in zip(v.keys, v.values)})
+
+
 def _atom_truth(e, cls, pname):
     """Truth of one recognised atom for an abstract input class; None if unrecognised."""
     if isinstance(e, ast.Call) and isinstance(e.func, ast.Name) and e.func.id == "isinstance" and len(e.args) == 2 \
@@ -341,6 +358,8 @@ def _atom_truth(e, cls, pname):
                 return None
         elif isinstance(right, ast.Constant):
             consts = [right.value]
+        elif isinstance(right, ast.Name) and right.id in _CONST_TABLES:
+            consts = list(_CONST_TABLES[right.id][0])  # a module-level table of the accepted spellings
         else:
             return None
         if cls["type"] != "str":
@@ -388,6 +407,14 @@ def _walk_tree(stmts, cls, pname, f):
             if isinstance(v, ast.Call) and isinstance(v.func, ast.Name) and v.func.id == "bool" and len(v.args) == 1 \
                     and isinstance(v.args[0], ast.Name) and v.args[0].id == pname and cls["type"] == "bool":
                 return "return:param"
+            if isinstance(v, ast.Subscript) and isinstance(v.value, ast.Name) and v.value.id in _CONST_TABLES and _CONST_TABLES[v.value.id][1] is not None and cls["type"] == "str":
+                # `return _TABLE[value]` / `_TABLE[value.lower()]`
+                k = v.slice
+                lowered = isinstance(k, ast.Call) and isinstance(k.func, ast.Attribute) and k.func.attr in ("lower", "casefold") and norm(k.func.value) == pname
+                if (lowered or (isinstance(k, ast.Name) and k.id == pname and not cls["mixed"])) and cls["lower"] in _CONST_TABLES[v.value.id][1]:
+                    return f"return:{_CONST_TABLES[v.value.id][1][cls['lower']]!r}"
+                if not lowered and isinstance(k, ast.Name) and k.id == pname and cls["mixed"]:
+                    return "raise:KeyError"  # an any-case spelling looked up case-sensitively
             return f"return:{norm(v)}"  # some computed value: compared textually with the expectation
         elif isinstance(st, ast.Raise):
             x = st.exc
@@ -445,6 +472,7 @@ def check_parser(ctx):
     f = find_parser(m)
     ctx.saw(f)
     pname = f.params[0]
+    _load_const_tables(f.module)
     n = 0
     for (label, cls), want in zip(CLASSES, EXPECT):
         got = _walk_tree(f.body, cls, pname, f)
@@ -464,6 +492,27 @@ def check_wiring(ctx, r):
     m = ctx.model
     cfgmod = m.module("_config")
     cls = m.cls("_config._JaxtypingConfig")
+    lazy = cls.methods.get("__getattr__") or cls.methods.get("__getattribute__")
+    if lazy is not None:
+        # settings loaded on first read: reading one setting must not (re)load the switch -- an explicit
+        # `config.update("jaxtyping_disable", False)` made before that first read would be silently undone
+        from ..core import region
+
+        ctx.saw(lazy)
+        item_p = lazy.params[1] if len(lazy.params) > 1 else None
+        for h_ in region(m, lazy, depth=3):
+            for c in m.calls_in(h_):
+                if isinstance(c.func, ast.Attribute) and c.func.attr == "update" and c.args and isinstance(c.func.value, ast.Name) and c.func.value.id == h_.params[0]:
+                    k = c.args[0]
+                    loops = [lp for lp in ast.walk(h_.node) if isinstance(lp, ast.For) and any(y is c for b_ in lp.body for y in ast.walk(b_))
+                             and isinstance(k, ast.Name) and any(isinstance(x, ast.Name) and x.id == k.id for x in ast.walk(lp.target))]
+                    if loops or (isinstance(k, ast.Constant) and k.value == "jaxtyping_disable" and h_ is not lazy):
+                        ctx.bad("C19.3", h_, c, f"reading a setting that is not set yet (`{lazy.name}`) runs `{short(c, 50)}` for "
+                                + ("every setting" if loops else "jaxtyping_disable") + ": jaxtyping_disable is re-initialised from the environment, so an earlier "
+                                "config.update('jaxtyping_disable', ...) is silently undone the first time any other setting is read (e.g. while an error message is built)",
+                                construct=f"{lazy.name}: reloads jaxtyping_disable from the environment")
+                    elif not (isinstance(k, ast.Name) and k.id == item_p):
+                        raise AnalysisError(f"C19.3: `{short(c, 50)}` inside {lazy.name}: which setting is (re)loaded is not interpreted")
     init = need(cls.methods.get("__init__"), "_JaxtypingConfig.__init__ not found")
     upd = need(cls.methods.get("update"), "_JaxtypingConfig.update not found")
     ctx.saw(init)
@@ -549,6 +598,10 @@ def check_wiring(ctx, r):
                 found = True
                 if not lowered and k.value != "jaxtyping_disable":
                     ctx.bad("C19.3", init, c, "key spelling in __init__ does not match the branch in update")
+                # (a value normalised at the boundary -- `os.environ.get(..).lower()` / `.strip()` -- is still the
+                # environment's value; whether every spelling is understood is the parser's clause, C19.2)
+                while isinstance(v, ast.Call) and isinstance(v.func, ast.Attribute) and v.func.attr in ("lower", "strip", "casefold") and not v.args:
+                    v = v.func.value
                 ok_env = (isinstance(v, ast.Call) and norm(v.func) in ("os.environ.get", "os.getenv") and v.args
                           and isinstance(v.args[0], ast.Constant) and v.args[0].value == "JAXTYPING_DISABLE")
                 if not ok_env:
